@@ -405,11 +405,49 @@ fn disk_case(ctx: &Ctx, case: u64, r: &mut Rng, rep: &mut Report) {
         let _ = std::fs::remove_dir_all(&work);
         return;
     }
+    let ign_ctime = r.chance(1, 4);
+    // a file rewritten in place (same size) with its mtime put back: on disk only the change time gives it away, and the
+    // harness is fast enough for old and new change time to fall into the same second
+    if !ign_ctime && r.chance(1, 2) {
+        let cands: Vec<crate::model::PathKey> = m2.entries.iter().filter(|(k, e)| size_of(e) > 0 && e.hardlink.is_none() && m1.entries.get(*k) == Some(*e)).map(|(k, _)| k.clone()).collect();
+        if !cands.is_empty() {
+            let k = r.pick(&cands).clone();
+            let p = src.join(pk_to_path(&k));
+            if let Some(Kind::File(b)) = m2.entries.get(&k).map(|e| e.kind.clone()) {
+                let mut v = b.as_ref().clone();
+                let i = r.usize_below(v.len());
+                v[i] ^= 0x3c;
+                let mt = m2.entries[&k].mtime;
+                use std::os::unix::fs::MetadataExt;
+                let ctime_of = |p: &Path| std::fs::symlink_metadata(p).map(|m| (m.ctime(), m.ctime_nsec())).ok();
+                let before = ctime_of(&p);
+                let mut ok = std::fs::OpenOptions::new().write(true).open(&p).and_then(|mut f| std::io::Write::write_all(&mut f, &v)).is_ok()
+                    && filetime::set_file_mtime(&p, filetime::FileTime::from_unix_time(mt.0, mt.1)).is_ok();
+                // file systems stamp with a coarse clock: make sure the change time really moved (the premise)
+                let mut tries = 0;
+                while ok && ctime_of(&p) == before {
+                    std::thread::sleep(std::time::Duration::from_millis(5));
+                    ok = filetime::set_file_mtime(&p, filetime::FileTime::from_unix_time(mt.0, mt.1)).is_ok();
+                    tries += 1;
+                    if tries > 100 {
+                        rep.inconclusive("change time does not move on this file system".to_string());
+                        let _ = std::fs::remove_dir_all(&work);
+                        return;
+                    }
+                }
+                if ok {
+                    m2.entries.get_mut(&k).unwrap().kind = Kind::File(std::sync::Arc::new(v));
+                    edits.push(format!("rewritten in place, mtime restored: {}", crate::model::pk_display(&k)));
+                    rep.count("in_place_changes_visible_through_ctime_only_on_disk", 1);
+                }
+            }
+        }
+    }
     let detail = json!({"config": h.cfg.desc, "edits": edits, "realisation": "disk"});
     let env_a = clone_env(&h);
     let env_b = clone_env(&h);
     rep.evaluations += 1;
-    let popts = ParentOptions::default().ignore_ctime(r.chance(1, 4)).ignore_inode(r.chance(1, 4));
+    let popts = ParentOptions::default().ignore_ctime(ign_ctime).ignore_inode(r.chance(1, 4));
     match (catch(|| run(&env_a, popts.clone(), 1_700_000_100)), catch(|| run(&env_b, ParentOptions::default().force(true), 1_700_000_100))) {
         (Ok(Ok(sa)), Ok(Ok(sb))) => {
             if sa.tree != sb.tree {
